@@ -87,7 +87,8 @@ def render_c06(case, c, seed):
     elif p["extra"] == "default-param":
         tgen_decl, twhere, targs = "<G = i32>", " where G: ::core::fmt::Debug + Send + Sync + 'static", "<i32>"
     elif p["extra"] == "lifetime-trait":
-        tgen_decl, targs = "<'t>", "<'static>"
+        # two lifetime parameters related by a where-predicate that the method needs
+        tgen_decl, twhere, targs = "<'t, 'u>", " where 't: 'u", "<'static, 'static>"
     supers = []
     if p["extra"] == "supertrait":
         supers.append("Sup")
@@ -115,7 +116,7 @@ def render_c06(case, c, seed):
     if p["extra"] == "typed-receiver":
         methods.append(f"    {fnkw} tr(self: &Self, x: i32) -> String;")
     if p["extra"] == "lifetime-trait":
-        methods.append("    fn lt(&self, s: &'t str) -> &'t str;")
+        methods.append("    fn lt(&self, s: &'t str, _u: &'u str) -> &'u str;")
     trait_text = (f"#[::entrait::entrait({attr})]\n{at}pub trait Tr{tgen_decl}{sup}{twhere} {{\n" + "\n".join(methods) + "\n}\n")
 
     # provider impl block for a type; `owner` expression gives the application's name, `me` the identity
@@ -142,7 +143,7 @@ def render_c06(case, c, seed):
         if p["extra"] == "typed-receiver":
             ms.append(method("tr(self: &Self, x: i32)", f'format!("provider:{{}}::tr", {owner_expr})', ['format!("{:?}", x)']))
         if p["extra"] == "lifetime-trait":
-            ms.append(f"""    fn lt(&self, s: &'static str) -> &'static str {{
+            ms.append(f"""    fn lt(&self, s: &'static str, _u: &'static str) -> &'static str {{
         let __f: String = format!("provider:{{}}::lt", {owner_expr});
         ::vt::emit("enter", &format!("\\"f\\":{{}},\\"deps\\":{{}},\\"args\\":[{{}}]", ::vt::js(&__f), ::vt::js(&{me_expr}), ::vt::js(&s.to_string())));
         ::vt::emit("exit", &format!("\\"f\\":{{}},\\"val\\":{{}}", ::vt::js(&__f), ::vt::js(&s.to_string())));
@@ -203,7 +204,7 @@ def render_c06(case, c, seed):
         v = rng.randint(1, 99)
         calls.append(("tr", [str(v)], [str(v)], is_async)); own["tr"] = "provider:Prov::tr"
     if p["extra"] == "lifetime-trait":
-        calls.append(("lt", ['"lifetime"'], ["lifetime"], False)); own["lt"] = "provider:Prov::lt"
+        calls.append(("lt", ['"lifetime"', '"u"'], ["lifetime"], False)); own["lt"] = "provider:Prov::lt"
     depsmap = {m: "recv" for m in own}
     recv = "::vt::addr(&*app)" if sel == "Self" else "::vt::addr(&app.inner)"
     for (m, exprs, logged, asy) in calls:
